@@ -118,12 +118,40 @@ def year_task(year):
                 st = symx.fresh_enum(en, 'st')
                 return f.threshold(tname, st)
             bad = None
-            for p in ex.explore(body):
-                res['paths'] += 1
-                if p.exc is not None:
-                    s = ex.solver
-                    bad = ('missing', p)
-                outcomes.append(p)
+            stateful = False
+            try:
+                for p in ex.explore(body):
+                    res['paths'] += 1
+                    if p.exc is not None:
+                        s = ex.solver
+                        bad = ('missing', p)
+                    outcomes.append(p)
+            except symx.Nondeterminism:
+                # the lookup is not a function of its arguments (hidden state in the form object):
+                # the path explorer cannot replay it.  Decide the finite question directly instead:
+                # on one form object, every ordered pair of statuses must give what a fresh object gives.
+                stateful = True
+            if stateful:
+                members_ = list(en)
+
+                def fresh():
+                    return cls(instance=getattr(f, '_instance', None))
+                for m1 in members_:
+                    for m2 in members_:
+                        try:
+                            want = fresh().threshold(tname, m2)
+                            g = fresh()
+                            g.threshold(tname, m1)
+                            got = g.threshold(tname, m2)
+                            if got != want:
+                                bad = ('history', (m1.name, m2.name, got, want))
+                        except AssertionError as e_:
+                            bad = ('history', (m1.name, m2.name, 'AssertionError', str(e_)[:80]))
+                        res['paths'] += 1
+                if bad is not None:
+                    res['obl'].append(('ty%d/%s/threshold/%s' % (year, cls.form_name, tname), 'sat', 0.0))
+                    res['viol'].append({'key': 'ty%d:%s:threshold:%s' % (year, cls.form_name, tname), 'what': 'threshold table %s of form %s depends on earlier lookups on the same form object: after status %s, status %s gives %s (a fresh form: %s)' % ((tname, cls.form_name) + bad[1])})
+                    continue
             # uniqueness: no member in two keys
             members = list(en)
             amb = []
